@@ -187,6 +187,11 @@ Fixpoint zlist_same (a b : list Z) : bool :=
 
 Definition check_doc (prop : Z) (inp impl : sx) : sx :=
   match inp, impl with
+  (* documents finished concurrently: g goroutines x docs documents x (1 + runs) identifiers, all of them distinct and 22
+     characters long (a 16-byte UUID in unpadded base64) *)
+  | L [A 31; A g; A docs; A runs], L [A total; A distinct; A malformed] =>
+      if (prop =? 16) && (negb (distinct =? total) || negb (malformed =? 0)) then verdict V_SPECFAIL 3 [16; 8] (L [A (total - distinct)])
+      else if total =? g * docs * (1 + runs) then verdict V_OK 3 [] (L []) else verdict V_DIVERGE 3 [] (L [A (g * docs * (1 + runs))])
   | L [A 2; L [A frd; A fsk; A fpb]; L runs; L e2es; L rv; L [A pubok; pubtext]; A unit_],
     L [A status; L found; A resnil; doc; L keys; A rt] =>
       match dlist d_query runs, dlist d_query e2es, dlist d_res rv, sx_bytes pubtext, sx_zs found with
